@@ -310,6 +310,7 @@ def gen_safety(E):
     out = [E.HEADER, "namespace TlshVerif.Gen\n"]
     sites = []
     unchecked = []
+    census = []
     root = E.SRC
     files = []
     for base, dirs, fs in os.walk(root):
@@ -333,15 +334,44 @@ def gen_safety(E):
             for i in find_all_seq(t, ["invariant!", "("]):
                 e = match_close(t, i + 1)
                 sites.append((rel, " ".join(x.text for x in t[i + 2:e])))
+            nb = nf = no = 0
             for i, tok in enumerate(t):
                 if tok.text in ("from_utf8_unchecked", "unreachable_unchecked", "get_unchecked", "get_unchecked_mut",
-                                "transmute", "assume_init", "from_raw_parts", "from_raw_parts_mut", "unwrap_unchecked"):
+                                "transmute", "assume_init", "from_raw_parts", "from_raw_parts_mut", "unwrap_unchecked",
+                                "set_len", "MaybeUninit", "uninit", "uninit_array", "assume", "unchecked_add",
+                                "unchecked_sub", "unchecked_mul", "unchecked_shl", "unchecked_shr", "read_unaligned",
+                                "write_unaligned", "copy_nonoverlapping", "as_mut_ptr", "from_utf8_unchecked_mut",
+                                "new_unchecked", "unreachable_unchecked"):
                     unchecked.append((rel, tok.text))
+                if tok.text == "unsafe" and i + 1 < len(t):
+                    if t[i + 1].text == "{":
+                        nb += 1
+                    elif t[i + 1].text in ("fn", "impl", "trait", "extern"):
+                        nf += 1
+                if tok.text == "optionally_unsafe!":
+                    no += 1
+            if nb or nf or no:
+                census.append((rel, nb, nf, no))
     except Exception as ex:
         E.fail("invariant sites", str(ex))
     out.append("/-- every `invariant!(expr)` in non-test code: (file, expression tokens) -/")
     out.append("def invariantSites : List (String × String) := [" +
                ", ".join(f"({json.dumps(a)}, {json.dumps(b)})" for a, b in sites) + "]\n")
+    try:
+        import hashlib
+        mt = E.src_tokens("macros.rs")
+        cutm = find_seq(mt, ["mod", "tests"])
+        if cutm >= 0:
+            mt = mt[:cutm]
+        fp = hashlib.md5(" ".join(x.text for x in mt).encode()).hexdigest()
+    except Exception as ex:
+        E.fail("macros fingerprint", str(ex))
+        fp = ""
+    out.append("/-- md5 of the token sequence of macros.rs (`invariant!`, `optionally_unsafe!` definitions), tests excluded -/")
+    out.append(f"def macrosFingerprint : String := {json.dumps(fp)}\n")
+    out.append("/-- per file: (`unsafe {` blocks, `unsafe fn|impl|trait|extern` items, `optionally_unsafe!` uses) -/")
+    out.append("def unsafeCensus : List (String × Nat × Nat × Nat) := [" +
+               ", ".join(f"({json.dumps(a)}, {b}, {c}, {d})" for a, b, c, d in census) + "]\n")
     out.append("/-- unchecked / raw operations outside the x86 back ends: (file, name) -/")
     out.append("def uncheckedCalls : List (String × String) := [" +
                ", ".join(f"({json.dumps(a)}, {json.dumps(b)})" for a, b in unchecked) + "]\n")
